@@ -13,6 +13,7 @@ pub mod c14;
 pub mod c15;
 pub mod c16;
 pub mod c17;
+pub mod c20;
 pub mod hist;
 
 use crate::evidence::KnownFindings;
@@ -39,6 +40,7 @@ pub fn run(cfg: &RunCfg) -> i32 {
         "C15" => c15::run(cfg),
         "C16" => c16::run(cfg),
         "C17" => c17::run(cfg),
+        "C20" => c20::run(cfg),
         other => {
             eprintln!("unknown property {other}");
             2
@@ -116,6 +118,17 @@ pub fn replay(prop: &str, file: &str) -> i32 {
                         .and_then(|c| c16::check_content_case(&c, &strict).map(|_| ()))
                 }
             }
+            "C20" => match _part.as_str() {
+                "buffer" => serde_json::from_value::<c20::BufCase>(case.clone())
+                    .map_err(|e| Failure::new("replay.parse", "a C20 buffer case", e.to_string()))
+                    .and_then(|c| c20::check_buffer(&c).map(|_| ())),
+                "pairing" => serde_json::from_value::<c20::Pairing>(case.clone())
+                    .map_err(|e| Failure::new("replay.parse", "a C20 pairing case", e.to_string()))
+                    .and_then(|c| c20::check_pairing(&c).map(|_| ())),
+                _ => serde_json::from_value::<c20::ApiCase>(case.clone())
+                    .map_err(|e| Failure::new("replay.parse", "a C20 api case", e.to_string()))
+                    .and_then(|c| c20::check_api(&c, &strict).map(|_| ())),
+            },
             "C17" => serde_json::from_value::<c17::Case>(case.clone())
                 .map_err(|e| Failure::new("replay.parse", "a C17 case", e.to_string()))
                 .and_then(|c| c17::check_case(&c, &strict).map(|_| ())),
